@@ -434,6 +434,13 @@ class DFContainer:
             self.locals.pop(place.id, None)
         else:
             self.locals[place.id] = port
+        # A packed wire that `__getitem__` cached for an enclosing struct/tuple place is
+        # stale once one of its fields/elements is assigned: forget it, so that the next
+        # lookup of the parent re-packs the current field wires.
+        sub = place
+        while isinstance(sub, FieldAccess | TupleAccess):
+            sub = sub.parent
+            self.locals.pop(sub.id, None)
 
     def __contains__(self, place: Place) -> bool:
         return place.id in self.locals
